@@ -32,7 +32,7 @@ func runPair(r *rand.Rand, grace time.Duration) ([]OracleHit, map[string]interfa
 	tasks := make([]*dag.Task, n)
 	for i := 0; i < n; i++ {
 		id := string(rune('a' + i))
-		tasks[i] = dag.NewTask(id, func(ctx context.Context, opt *getoptions.GetOpt, args []string) error {
+		fn := func(ctx context.Context, opt *getoptions.GetOpt, args []string) error {
 			gi := ctx.Value(gkey("graph")).(int)
 			ch := make(chan struct{})
 			c.mu.Lock()
@@ -54,7 +54,13 @@ func runPair(r *rand.Rand, grace time.Duration) ([]OracleHit, map[string]interfa
 			c.perTask[id]--
 			c.mu.Unlock()
 			return nil
-		})
+		}
+		if i%2 == 1 {
+			// written as a struct literal: ID and Fn are exported and the zero lock works
+			tasks[i] = &dag.Task{ID: dag.ID(id), Fn: fn}
+		} else {
+			tasks[i] = dag.NewTask(id, fn)
+		}
 	}
 	caps := [2]int{1 + r.Intn(3), 1 + r.Intn(3)}
 	graphs := [2]*dag.Graph{}
